@@ -324,9 +324,21 @@ def run(model: RepoModel, rep, tier: str):
                             and isinstance(n.value, (ast.BinOp, ast.ListComp, ast.Name, ast.Subscript)):
                         frontier_vars.add(n.targets[0].id)
                         changed = True
-        if not frontier_vars:
-            continue
         probs = []
+        # (d) an empty frontier must stay empty: `analyze_block(...) or <something>` resurrects control flow out of a sub-block
+        #     that ended in return/break/continue
+        for n in walk_no_nested(h.node):
+            if isinstance(n, (ast.BoolOp, ast.IfExp)):
+                parts = n.values if isinstance(n, ast.BoolOp) else [n.body, n.orelse, n.test]
+                if any(isinstance(x, ast.Call) and is_self_attr(x.func) and x.func.attr in ("analyze_block", "analyze_init_block", dl.name) for x in parts):
+                    probs.append((n.lineno, f"`{norm(n)[:110]}` replaces the frontier a sub-block returns when it is empty: an empty frontier "
+                                            f"means the sub-block never falls through (it ended in return/break/continue); substituting another "
+                                            f"frontier adds an edge from before the sub-block to whatever follows the statement"))
+                    for a in walk_no_nested(h.node):
+                        if isinstance(a, ast.Assign) and a.value is n:
+                            frontier_vars |= {t.id for t in a.targets if isinstance(t, ast.Name)}
+        if not frontier_vars and not probs:
+            continue
         # (a) filtered comprehension over a frontier
         for n in walk_no_nested(h.node):
             if isinstance(n, (ast.ListComp, ast.GeneratorExp, ast.SetComp)):
@@ -427,6 +439,10 @@ def _is_attr(name):
 from .c02 import _rename_attr, _rename_op  # noqa: E402  (shared AST-located frontend mutators)
 
 MUTANTS = [
+    ("empty-frontier-resurrected", FILE,
+     lambda src: __import__("sa.mutate", fromlist=["x"]).text_replace(src, "                last_stmts_of_then_body = self.analyze_block(then_body, last_stmts_of_then_body, global_special_stmts)",
+                                                                     "                last_stmts_of_then_body = self.analyze_block(then_body, last_stmts_of_then_body, global_special_stmts) or last_stmts_of_then_body"),
+     "analyze_if_stmt::frontiers handed on whole"),
     ("finally-parents-filtered", FILE, _mut_expr("ControlFlowAnalysis", "analyze_try_stmt",
                                                  lambda e: isinstance(e, ast.ListComp) and "CATCH_FINALLY" in norm(e),
                                                  "[CFGNode(s, CONTROL_FLOW_KIND.CATCH_FINALLY) for s in last_stmts_of_catch_body + last_stmts_of_else if not isinstance(s, CFGNode)]"),
